@@ -33,15 +33,15 @@ func (c *Ctx) funcFieldsByRole() (fn, once, memo string) {
 		f := s.Field(i)
 		switch {
 		case core.TypeStr(f.Type()) == "reflect.Value":
-			fn = f.Name()
+			fn = core.CanonFieldName(s, i)
 		case types.Identical(f.Type(), types.Typ[types.Bool]):
 			if once != "" {
 				once = "?"
 			} else {
-				once = f.Name()
+				once = core.CanonFieldName(s, i)
 			}
 		case core.NamedOf(f.Type()) == "Result":
-			memo = f.Name()
+			memo = core.CanonFieldName(s, i)
 		}
 	}
 	return
